@@ -341,6 +341,38 @@ nni_chunk_trim_u32(nni_chunk *ch)
 	return (v);
 }
 
+#ifdef NNG_VERIF
+// Storage invariant: the data window lies inside the allocation.
+static void
+msg_verif_check(const nni_msg *m, const char *where)
+{
+	const nni_chunk *ch = &m->m_body;
+	bool             ok = true;
+	if (m->m_header_len > sizeof(m->m_header_buf)) {
+		ok = false;
+	}
+	if (ch->ch_buf == NULL) {
+		ok = ok && (ch->ch_len == 0) && (ch->ch_cap == 0);
+	} else if (ch->ch_ptr == NULL) {
+		ok = ok && (ch->ch_len == 0);
+	} else {
+		ok = ok && (ch->ch_ptr >= ch->ch_buf) &&
+		    (ch->ch_ptr <= ch->ch_buf + ch->ch_cap) &&
+		    (ch->ch_len <=
+		        (size_t) ((ch->ch_buf + ch->ch_cap) - ch->ch_ptr));
+	}
+	if (!ok) {
+		nni_verif_fail("C17",
+		    "msg-storage-invariant %s hdr=%zu cap=%zu len=%zu off=%td",
+		    where, m->m_header_len, ch->ch_cap, ch->ch_len,
+		    ch->ch_ptr - ch->ch_buf);
+	}
+}
+#define MSG_VERIF_CHECK(m, w) msg_verif_check(m, w)
+#else
+#define MSG_VERIF_CHECK(m, w) ((void) 0)
+#endif
+
 void
 nni_msg_clone(nni_msg *m)
 {
@@ -407,6 +439,7 @@ nni_msg_pull_up(nni_msg *m)
 	// so this insert operation cannot fail.
 	nni_msg_insert(m, nni_msg_header(m), nni_msg_header_len(m));
 	nni_msg_header_clear(m);
+	MSG_VERIF_CHECK(m, "pull_up");
 	return (m);
 }
 
@@ -442,6 +475,7 @@ nni_msg_alloc(nni_msg **mp, size_t sz)
 	// We always start with a single valid reference count.
 	nni_atomic_init(&m->m_refcnt);
 	nni_atomic_set(&m->m_refcnt, 1);
+	MSG_VERIF_CHECK(m, "alloc");
 	*mp = m;
 	return (0);
 }
@@ -467,6 +501,7 @@ nni_msg_dup(nni_msg **dup, const nni_msg *src)
 	m->m_pipe = src->m_pipe;
 	nni_atomic_init(&m->m_refcnt);
 	nni_atomic_set(&m->m_refcnt, 1);
+	MSG_VERIF_CHECK(m, "dup");
 
 	*dup = m;
 	return (0);
@@ -476,6 +511,7 @@ void
 nni_msg_free(nni_msg *m)
 {
 	if ((m != NULL) && (nni_atomic_dec_nv(&m->m_refcnt) == 0)) {
+		MSG_VERIF_CHECK(m, "free");
 		nni_chunk_free(&m->m_body);
 		NNI_FREE_STRUCT(m);
 	}
@@ -494,12 +530,18 @@ nni_msg_realloc(nni_msg *m, size_t sz)
 		// "Shrinking", just mark bytes at end usable again.
 		nni_chunk_chop(&m->m_body, m->m_body.ch_len - sz);
 	}
+	MSG_VERIF_CHECK(m, "realloc");
 	return (0);
 }
 
 int
 nni_msg_reserve(nni_msg *m, size_t capacity)
 {
+#ifdef NNG_VERIF
+	int rv = nni_chunk_grow(&m->m_body, capacity, 0);
+	MSG_VERIF_CHECK(m, "reserve");
+	return (rv);
+#endif
 	return (nni_chunk_grow(&m->m_body, capacity, 0));
 }
 
@@ -537,18 +579,33 @@ nni_msg_len(const nni_msg *m)
 int
 nni_msg_append(nni_msg *m, const void *data, size_t len)
 {
+#ifdef NNG_VERIF
+	int rv = nni_chunk_append(&m->m_body, data, len);
+	MSG_VERIF_CHECK(m, "append");
+	return (rv);
+#endif
 	return (nni_chunk_append(&m->m_body, data, len));
 }
 
 int
 nni_msg_insert(nni_msg *m, const void *data, size_t len)
 {
+#ifdef NNG_VERIF
+	int rv = nni_chunk_insert(&m->m_body, data, len);
+	MSG_VERIF_CHECK(m, "insert");
+	return (rv);
+#endif
 	return (nni_chunk_insert(&m->m_body, data, len));
 }
 
 int
 nni_msg_trim(nni_msg *m, size_t len)
 {
+#ifdef NNG_VERIF
+	int rv = nni_chunk_trim(&m->m_body, len);
+	MSG_VERIF_CHECK(m, "trim");
+	return (rv);
+#endif
 	return (nni_chunk_trim(&m->m_body, len));
 }
 
@@ -561,6 +618,11 @@ nni_msg_trim_u32(nni_msg *m)
 int
 nni_msg_chop(nni_msg *m, size_t len)
 {
+#ifdef NNG_VERIF
+	int rv = nni_chunk_chop(&m->m_body, len);
+	MSG_VERIF_CHECK(m, "chop");
+	return (rv);
+#endif
 	return (nni_chunk_chop(&m->m_body, len));
 }
 
